@@ -9,6 +9,7 @@ import NeoModel.Proofs.MptLazyRun
 import NeoModel.Proofs.MptLazyLimits
 import NeoModel.Proofs.MptIterate
 import NeoModel.Proofs.MptFind
+import NeoModel.Proofs.MptLazySeek
 namespace NeoModel.C10
 open NeoModel.Mpt
 
@@ -88,7 +89,7 @@ theorem lazy_collapse (l : LNode) (t : Node) (d : Nat) (hr : LRep H S l t) (hs :
 
 /-! ## 10. any interleaving -/
 
-/-- C10.10a: every schedule of Put / Delete / PutBatch / Get / StateRoot / Flush / Collapse(d) /
+/-- C10.10a: every schedule of Put / Delete / PutBatch / Get / GetProof / StateRoot / TrieStore.Seek / Flush / Collapse(d) /
 reopen-from-root in which Collapse and reopen happen only while nothing was changed since the last
 Flush, started on a fresh trie over ANY store: the real representation returns exactly what the
 expanded trie returns — no errors, the same values, the same state roots. Side conditions on the
@@ -273,5 +274,46 @@ example : findX exS [1,2] none 0 = some [] := by decide
 example : findX exS [1,2] (some [0,6]) 0 = some [([0,7], [3])] := by decide
 example : findX exS [1,2] (some [0,5]) 0 = some [] := by decide
 example : findX exS [1,2] (some [0,5]) 1 = some [([0,7], [3])] := by decide
+
+/-! ## 14. GetProof on the real representation -/
+
+/-- C10.8g: `GetProof` on an in-memory trie with HashNodes returns exactly the byte strings
+`getProof` returns on the trie it represents (or fails exactly when that fails), and leaves a root
+that represents the same trie. -/
+theorem lazy_getProof (F : Nat) (l : LNode) (t : Node) (p : Path) (hr : LRep H S l t)
+    (hF : 2 * height t + 3 ≤ F) :
+    (∀ ps, getProof H t p = some ps → ∃ l', lgetProof H S F l p = some (l', ps) ∧ LRep H S l' t) ∧
+    (getProof H t p = none → lgetProof H S F l p = none) :=
+  lgetProof_rep F l t p hr (Nat.le_trans (need_le l t) hF)
+
+/-- C10.6 on the real representation: for a present key, what `GetProof` returns on a collapsed /
+reopened trie verifies against that trie's `StateRoot` to the stored value. -/
+theorem lazy_proof_complete (h32 : ∀ b, (H b).length = 32) (F : Nat) (l : LNode) (t : Node)
+    (hr : LRep H S l t) (hF : 2 * height t + 3 ≤ F) (hcf : CollFree H (nodeEncs H t)) (hb : Bounded t)
+    (key : Bytes) (v : Val) (hv : lookup t (toNibbles key) = some v) :
+    ∃ l' ps, lgetProof H S F l (toNibbles key) = some (l', ps) ∧
+      verifyProof H (lrootHash H l) key ps = .found v := by
+  obtain ⟨ps, hps, hver⟩ := proof_complete H h32 t hcf hb key v hv
+  obtain ⟨l', hl', _⟩ := (lazy_getProof F l t _ hr hF).1 ps hps
+  exact ⟨l', ps, hl', by rw [lazy_root l t hr]; exact hver⟩
+
+-- non-vacuity: the reopened trie of the example above (root = one HashNode) proves key 13
+example : (lgetProof toyH exLS.store 20 (lreopen toyH exLS.root) [1,3]).map (·.2) = getProof toyH exT [1,3] := by
+  decide
+
+/-! ## 15. TrieStore.Seek on the real representation -/
+
+/-- C10.5b on the real representation: `TrieStore.Seek` runs on `HashNode(root)` over the node store
+and loads every node it visits. On any in-memory trie `l` that represents `t` (in particular
+`lreopen` of a flushed trie) it meets no storage error and reports exactly `seek t …`, hence
+(`seek_spec`) the keys under the prefix in range of `Start`, ascending or descending. -/
+theorem lazy_seek (F : Nat) (l : LNode) (t : Node) (pre fromP : Path) (back : Bool)
+    (hr : LRep H S l t) (hF : 2 * height t + 3 ≤ F) :
+    lseek S F l pre fromP back =
+      some (dir back ((under t pre).filter (fun e => inRange back fromP e.1))) := by
+  rw [lseek_rep F l t pre fromP back hr hF, seek_spec]
+
+-- non-vacuity: a seek from the single HashNode of the reopened example trie {12 ↦ 07, 13 ↦ 08}
+example : lseek exLS.store 20 (lreopen toyH exLS.root) [1] [3] true = some [([3], [8]), ([2], [7])] := by decide
 
 end NeoModel.C10
